@@ -6,7 +6,7 @@ from tools.framework import Case, Err
 from harness.midi_common import *
 
 ID = "C19"
-LEAN_MODULES = ["Mingus.Props.C19", "Mingus.Props.C19Entry", "Mingus.Props.C19Bar", "Mingus.Props.C19Track", "Mingus.Tie.C19"]
+LEAN_MODULES = ["Mingus.Props.C19", "Mingus.Props.C19Entry", "Mingus.Props.C19Bar", "Mingus.Props.C19Track", "Mingus.Props.C19Comp", "Mingus.Tie.C19"]
 RULE = ("systematic: every name up to double accidentals x octaves 0-8 (from_Note, all four flag combinations), every value of "
         "the vocabulary (13 base values longa..128th x 0-2 dots, and x triplet/quintuplet/septuplet) as a one-entry bar, all 30 "
         "keys, 12 meters, chords of 1-5 notes, rests as None and as the empty container, empty bars, key/meter changes between "
